@@ -139,6 +139,19 @@ where
             | LinkState::IncompleteAttachExchanged
             | LinkState::AttachReceived
             | LinkState::Attached => {
+                // A detach from the remote peer may already be waiting in the link: then it is
+                // the remote peer that detaches (or closes) the link and this call only has to
+                // answer it in kind
+                if let Some(remote_detach) = take_waiting_remote_detach(self) {
+                    let closed = remote_detach.closed;
+                    let result = self.link_mut().on_incoming_detach(remote_detach);
+                    self.send_detach(closed, error).await?;
+                    return match (closed, result) {
+                        (true, Ok(())) => Err(DetachError::ClosedByRemote),
+                        (_, result) => result,
+                    };
+                }
+
                 // Send a non-closing detach
                 self.send_detach(false, error).await?;
 
@@ -286,6 +299,20 @@ where
         Some(reason) => DetachError::SessionStopped(reason.clone()),
         None => DetachError::IllegalState, // defensive: no stop reason recorded; failure is link-local
     }
+}
+
+/// A detach from the remote peer that has already been forwarded to the link, if any. Like
+/// `recv_remote_detach`, this ignores all other frames
+fn take_waiting_remote_detach<T>(link_inner: &mut T) -> Option<Detach>
+where
+    T: LinkEndpointInner + ?Sized,
+{
+    while let Ok(frame) = link_inner.reader_mut().try_recv() {
+        if let LinkFrame::Detach(detach) = frame {
+            return Some(detach);
+        }
+    }
+    None
 }
 
 /// # Cancel safety
